@@ -235,7 +235,16 @@ static std::string judge(Ctx& cx, const CaseIn& c, const Paths& sol, GroupCache&
     }
   }
   std::string why;
-  if (!good) why = std::string(w.want == 0 ? "region_excess: " : (w.got == 0 ? "region_missing: " : "region_winding: ")) + wit_str(w);
+  if (!good) {
+    // mechanical condition of known finding D19: a vertex of one parallelogram lies exactly in the interior of an edge of
+    // another parallelogram (an exact T-junction between the operands of the library's internal Union)
+    bool tj = false;
+    for (auto& q : g.m.quads) { for (const P& v : q) { for (auto& e : g.m.edges) {
+      if (v == e.a || v == e.b || orient(e.a, e.b, v) != 0) continue;
+      if (std::min(e.a.x, e.b.x) <= v.x && v.x <= std::max(e.a.x, e.b.x) && std::min(e.a.y, e.b.y) <= v.y && v.y <= std::max(e.a.y, e.b.y)) { tj = true; break; } }
+      if (tj) break; } if (tj) break; }
+    why = std::string(w.want == 0 ? "region_excess" : (w.got == 0 ? "region_missing" : "region_winding")) + (tj ? "_with_vertex_on_foreign_edge: " : ": ") + wit_str(w);
+  }
   if (cx.verbose) printf("   S=%lld Hmin=%lld parallelograms=%zu (degenerate %zu) edges=%zu cells=%zu evals=%llu verdict=%s\n", (long long)g.S, (long long)g.Hmin, g.m.quads.size(), g.m.degenerate,
                          g.m.edges.size(), g.tree.cells.size(), (unsigned long long)st.evals, good ? "ok" : why.c_str());
   g.verified.push_back({can, why});
@@ -332,6 +341,9 @@ int main(int argc, char** argv) {
   }
   const int K = 6;
   std::vector<P> PB = pattern_board(a.seed), QB = board_PS(a.seed); QB.resize(K);
+  // "collinear" path board: three of the points lie on one horizontal line and three on one sloping line, so that open paths occur
+  // whose end vertex is exactly in line with the edge at the other end (a wrap-around triple that only a closed path may merge)
+  if (a.opt("qboard", "generic") == "collinear") { QB = {{0, 0}, {100, 0}, {-60, 0}, {100, 100}, {50, 50}, {-20, 40}}; if (a.seed) for (auto& q : QB) { q.x += 11 * (i64)(a.seed % 97); q.y -= 7 * (i64)(a.seed % 89); } QB.resize(std::min<size_t>(QB.size(), (size_t)K)); }
   i64 pk = a.opti("pk", 1);                 // pattern board multiplier (pk = 4: pattern as large as the path)
   for (auto& p : PB) { p.x *= pk; p.y *= pk; }
   int pmax = (int)a.opti("pmax", a.thorough() ? 4 : 3), qmax = (int)a.opti("qmax", a.thorough() ? 4 : 3);
